@@ -176,9 +176,6 @@ class NewPoint(ED.NewPoint):
         out = H.var('PointEd448 *', '*pecp')
         return dict(args=[out, H.bytes(x, 'x'), H.bytes(y, 'y'), H.sym('len'), ecctx], out=out, ecctx=ecctx)
 
-    def early_exit(self, op):
-        return [k for k, v in op.items() if k in ('0 == len', 'nbytes < len') and v]
-
     def oom_replay(self, pv, clause):
         def go():
             from vf.cvc_alg import oomreplay
